@@ -23,6 +23,7 @@ func init() {
 		c19LoopStop(c)
 		c19Pairing(c)
 		c19WhoClears(c)
+		c19HolderWrites(c, "C19.3c")
 		c19RuntimeTimerOps(c)
 		timerNilSafe(c, "C19.4")
 	})
@@ -677,4 +678,44 @@ func c19RuntimeTimerOps(c *core.Ctx) {
 		}
 	}
 	c.Need(R, "runtime timer Stop/Reset sites", n, 4)
+}
+
+// c19HolderWrites — C19.3c = C07.8: since the uses of the heartbeat holders
+// are nil-tested (fix 81db1f3) a holder reset to nil no longer crashes — it
+// silently turns the next Refresh into a no-op, i.e. the deadline or the next
+// ping is lost. The holders are therefore written only with a fresh timer.
+func c19HolderWrites(c *core.Ctx, R string) {
+	c.Rule(R, "WHO(write a heartbeat timer holder): socket.pingIntervalTimer / socket.pingTimeoutTimer are written only by Store(SetTimeout(…)) — no Store(nil), Swap or CompareAndSwap anywhere: the uses are nil-tested, so an emptied holder silently drops the next Refresh (the v3 deadline after an upgrade, the next v4 ping)")
+	n := 0
+	for _, u := range c.P.Units {
+		if u.Pkg != c.P.Pkgs["engine"] {
+			continue
+		}
+		for _, h := range []string{"socket.pingIntervalTimer", "socket.pingTimeoutTimer"} {
+			for _, cl := range fieldCalls(u, h) {
+				switch cl.Name {
+				case "Load":
+					continue
+				case "Store":
+					n++
+					c.Touch(u)
+					ok := false
+					if a := cl.Arg(0); a != nil {
+						a = u.Deep(a)
+						if ce, isCall := ast.Unparen(a).(*ast.CallExpr); isCall {
+							if k := u.CalleeKey(ce); k == setTimeoutKey || k == setIntervalKey {
+								ok = true
+							}
+						}
+					}
+					c.Check(R, keyf("%s/%s.Store(fresh timer)", u.Key, h), cl.Pos(), ok, "the holder receives a timer that was just created")
+				default:
+					n++
+					c.Touch(u)
+					c.Check(R, keyf("%s/%s.%s", u.Key, h, cl.Name), cl.Pos(), false, "the holder is only loaded or given a fresh timer; "+cl.Name+" can empty it")
+				}
+			}
+		}
+	}
+	c.Need(R, "writes of the heartbeat timer holders", n, 2)
 }
